@@ -104,31 +104,89 @@ Definition declares_generic (bases : list val) (ts : list val) : Prop :=
 Definition direct_generic (w : world) (c : nat) (ts : list val) : Prop :=
   exists bases, lookup_ob w c = Some bases /\ declares_generic bases ts /\ distinct_keys [] ts = true.
 
-(* shapes 2 and 3.  The __orig_bases__ found for the class are
+(* shapes 2 and 3, full statement ("subclasses that bind all parameters of their generic base, including under
+   multiple inheritance").  The __orig_bases__ found for the class are
      <extra bases> ++ D[xs] :: <further bases, none of them Generic[..]>
-   where D declares Generic[ts] together with the mixin (the mixin class is on D's MRO), and every extra base in
-   front of D[xs] is a class, or a parametrised base that has nothing to do with the mixin (List[int], P[int] with
-   a generic class P that does not use the mixin ...), or a parametrised base whose origin uses the mixin but
-   has __orig_bases__ none of which is Generic[..] (a forwarding class).  "Extra mixin bases in any order" of the
-   property text.  (False before fix c1eb572 for the parametrised non-mixin bases in front: findings
-   K-C20-builtin-alias-first / K-C20-foreign-generic-first, now fixed.) *)
-Definition passes_over (w : world) (v : val) : bool :=
-  match v with
-  | VCls _ => true
-  | VAlias (VCls p) _ =>
-      match lookup_ob w p with
-      | Some bs => forallb is_base bs && negb (existsb is_generic_alias bs)
-      | None => false
-      end
-  | _ => false
-  end.
-
+   where D[xs] is the first parametrised base whose origin uses the mixin (the mixin class is on D's MRO) and every
+   extra base in front of it is a class or a parametrised base that has nothing to do with the mixin (List[int],
+   P[int] with a generic class P that does not use the mixin; "extra mixin bases in any order").  D got its
+   parameters either by declaring Generic[ts] itself, or through a chain of forwarding / partially binding classes
+       class A(Generic[T, U], GenericMixin);  class Half(A[int, U]);  class Full(Half[str])
+   and the demanded mapping is the one of the declaring class with the alias arguments substituted along the
+   chain ({T: int, U: str} for Full).  `resolve` computes it: the parameters of an intermediate class are the
+   TypeVars among the arguments of its parametrised base, in order of first appearance (CPython's __parameters__);
+   `tv` tells which values are TypeVars.  Out of fuel / any other layout: no claim (None).
+   FALSE on the pinned tree for chains of length >= 2: C20_type_vars_forwarding_refuted (open findings
+   K-C20-forwarding-chain, K-C20-partially-binding-chain); proved for D declaring Generic[..] itself
+   (`binding_subclass`, the guarded form). *)
 Definition foreign (w : world) (v : val) : bool :=
   match v with VAlias (VCls p) _ => negb (uses_mixin w p) | _ => false end.
 
+Definition front_ok (w : world) (v : val) : bool :=
+  match v with VCls _ => true | _ => foreign w v end.
+
+Fixpoint first_generic_args (bases : list val) : option (list val) :=
+  match bases with
+  | [] => None
+  | VAlias VGeneric ts :: _ => Some ts
+  | _ :: r => first_generic_args r
+  end.
+
+(* the first parametrised base whose origin uses the mixin: (origin, arguments, bases in front, bases behind) *)
+Fixpoint binding_base (w : world) (front bases : list val) : option (nat * list val * list val * list val) :=
+  match bases with
+  | VAlias (VCls d) xs :: post =>
+      if uses_mixin w d then Some (d, xs, front, post) else binding_base w (front ++ [VAlias (VCls d) xs]) post
+  | b :: r => binding_base w (front ++ [b]) r
+  | [] => None
+  end.
+
+Section Resolve.
+  Variable tv : val -> bool.      (* which values are TypeVars *)
+  Variable w : world.
+
+  Fixpoint dedup (seen l : list val) : list val :=
+    match l with
+    | [] => []
+    | x :: r => if existsb (fun s => val_eqb s x) seen then dedup seen r else x :: dedup (seen ++ [x]) r
+    end.
+  Definition params_of (ys : list val) : list val := dedup [] (filter tv ys).
+  Definition subst (ps zs : list val) (y : val) : val :=
+    if tv y then match dict_get y (combine ps zs) with Some z => z | None => y end else y.
+
+  Fixpoint resolve (fuel : nat) (d : nat) (xs : list val) : option (list (val * val)) :=
+    match fuel with
+    | O => None
+    | S f =>
+      match lookup_ob w d with
+      | None => None
+      | Some bases =>
+        if negb (forallb is_base bases) then None else
+        match first_generic_args bases with
+        | Some ts =>
+            if Nat.eqb (List.length ts) (List.length xs) && distinct_keys [] ts then Some (combine ts xs) else None
+        | None =>
+            match binding_base w [] bases with
+            | Some (d', ys, front, post) =>
+                if forallb is_plain front && forallb is_plain post && Nat.eqb (List.length (params_of ys)) (List.length xs)
+                then resolve f d' (map (subst (params_of ys) xs) ys) else None
+            | None => None
+            end
+        end
+      end
+    end.
+End Resolve.
+
+Definition chain_binding (tv : val -> bool) (w : world) (c : nat) (kvs : list (val * val)) : Prop :=
+  exists fuel pre d xs post, lookup_ob w c = Some (pre ++ VAlias (VCls d) xs :: post) /\
+    forallb (front_ok w) pre = true /\ uses_mixin w d = true /\
+    forallb is_base post = true /\ existsb is_generic_alias post = false /\
+    resolve tv w fuel d xs = Some kvs /\ forallb (fun kv => negb (tv (snd kv))) kvs = true.
+
+(* the guarded form that is proved: the binding base declares Generic[ts] itself *)
 Definition binding_subclass (w : world) (c : nat) (ts xs : list val) : Prop :=
   exists pre d post, lookup_ob w c = Some (pre ++ VAlias (VCls d) xs :: post) /\
-                     forallb (fun v => passes_over w v || foreign w v) pre = true /\ uses_mixin w d = true /\
+                     forallb (front_ok w) pre = true /\ uses_mixin w d = true /\
                      forallb is_base post = true /\ existsb is_generic_alias post = false /\ direct_generic w d ts.
 
 (* multiple inheritance / plain subclasses: class c has no __orig_bases__ of its own, classes
@@ -143,12 +201,6 @@ Definition inherits_bases_of (w : world) (c s : nat) (before after : list nat) :
 Definition tok_eqb (a b : val) : bool := match a, b with VTok x, VTok y => Nat.eqb x y | _, _ => false end.
 Definition toks_eqb (a b : list val) : bool := list_eqb tok_eqb a b.
 
-Fixpoint first_generic_args (bases : list val) : option (list val) :=
-  match bases with
-  | [] => None
-  | VAlias VGeneric ts :: _ => Some ts
-  | _ :: r => first_generic_args r
-  end.
 
 Definition direct_generic_b (w : world) (c : nat) (ts : list val) : bool :=
   match lookup_ob w c with
@@ -161,13 +213,29 @@ Fixpoint binding_scan (w : world) (bases : list val) (ts xs : list val) : bool :
   match bases with
   | VCls _ :: r => binding_scan w r ts xs
   | VAlias (VCls d) xs' :: post =>
-      if passes_over w (VAlias (VCls d) xs') || foreign w (VAlias (VCls d) xs') then binding_scan w post ts xs
+      if foreign w (VAlias (VCls d) xs') then binding_scan w post ts xs
       else toks_eqb xs' xs && forallb is_base post && negb (existsb is_generic_alias post) && direct_generic_b w d ts
   | _ => false
   end.
 
 Definition binding_subclass_b (w : world) (c : nat) (ts xs : list val) : bool :=
   match lookup_ob w c with Some bases => binding_scan w bases ts xs | None => false end.
+
+(* executable form of the full statement's shape: the mapping `resolve` yields is the one the driver expects *)
+Definition chain_binding_b (tv : val -> bool) (w : world) (c : nat) (ts xs : list val) : bool :=
+  match lookup_ob w c with
+  | Some bases =>
+      match binding_base w [] bases with
+      | Some (d, zs, front, post) =>
+          forallb (front_ok w) front && forallb is_base post && negb (existsb is_generic_alias post) &&
+          match resolve tv w 8 d zs with
+          | Some kvs => toks_eqb (map fst kvs) ts && toks_eqb (map snd kvs) xs && forallb (fun kv => negb (tv (snd kv))) kvs
+          | None => false
+          end
+      | None => false
+      end
+  | None => false
+  end.
 
 (* the instance was made as C[xs]() / as C() *)
 Definition oc_matches (oc : option val) (args : option (list val)) : Prop :=
